@@ -330,6 +330,26 @@ func ruleRC4() Rule {
 							break
 						}
 					}
+					if tokName == "" {
+						// path form of the same question: on every path to this call the last thing
+						// the function did with a token was emit(T) (guards and early returns in
+						// between change nothing)
+						if last := c.lastEmits(g, call, emit); len(last) > 0 {
+							okAll := true
+							var ns []string
+							for t := range last {
+								ns = append(ns, t)
+								if _, allowed := linebreakAfter[t]; !allowed {
+									okAll = false
+								}
+							}
+							sort.Strings(ns)
+							if okAll {
+								rr.OK(g, key+" after emit("+strings.Join(ns, ",")+")", call.Pos(), "grammar-position", "newlines are insignificant after "+strings.Join(ns, ", "))
+								continue
+							}
+						}
+					}
 					names := []string{tokName}
 					if tokName != "" && !isConstName(info, g, tokName) {
 						// emit(tok) under case labels
@@ -616,6 +636,103 @@ func ruleRC6() Rule {
 					}
 					return true
 				})
+			}
+			// the same two operations behind helpers: push(tok) appends its parameter,
+			// top(tok) compares the stack top with its parameter
+			type helper struct{ push, cmp int }
+			helpers := map[*core.Func]helper{}
+			for _, h := range c.funcsOfPkg("parser", false) {
+				if h.Decl == nil || h.Type.Params == nil {
+					continue
+				}
+				hi := h.Info()
+				idx := map[types.Object]int{}
+				k := 0
+				for _, fld := range h.Type.Params.List {
+					for _, nm := range fld.Names {
+						idx[hi.Defs[nm]] = k
+						k++
+					}
+				}
+				hp := helper{-1, -1}
+				h.OwnNodes(func(n ast.Node) bool {
+					switch n := n.(type) {
+					case *ast.AssignStmt:
+						if len(n.Lhs) == 1 && len(n.Rhs) == 1 && core.FieldOf(hi, n.Lhs[0]) == stack {
+							if call, ok := n.Rhs[0].(*ast.CallExpr); ok && isBuiltinCall(hi, call, "append") && len(call.Args) == 2 {
+								if id, ok := ast.Unparen(call.Args[1]).(*ast.Ident); ok {
+									if i, isParam := idx[hi.Uses[id]]; isParam {
+										hp.push = i
+									}
+								}
+							}
+						}
+					case *ast.BinaryExpr:
+						if n.Op == token.EQL {
+							if ix, ok := ast.Unparen(n.X).(*ast.IndexExpr); ok && core.FieldOf(hi, ix.X) == stack {
+								if id, ok := ast.Unparen(n.Y).(*ast.Ident); ok {
+									if i, isParam := idx[hi.Uses[id]]; isParam {
+										hp.cmp = i
+									}
+								}
+							}
+						}
+					}
+					return true
+				})
+				if hp.push >= 0 || hp.cmp >= 0 {
+					helpers[h] = hp
+				}
+			}
+			if len(helpers) > 0 {
+				for _, f := range c.funcsOfPkg("parser", false) {
+					info := f.Info()
+					f.OwnNodes(func(n ast.Node) bool {
+						call, ok := n.(*ast.CallExpr)
+						if !ok {
+							return true
+						}
+						fo := core.StaticCallee(info, call)
+						if fo == nil {
+							return true
+						}
+						hp, ok := helpers[c.P.FuncOf(fo)]
+						if !ok {
+							return true
+						}
+						if hp.push >= 0 && hp.push < len(call.Args) {
+							if tv, ok := info.Types[call.Args[hp.push]]; ok && tv.Value != nil {
+								pushed[exprStr(call.Args[hp.push])] = call.Pos()
+								pf[exprStr(call.Args[hp.push])] = f
+							}
+						}
+						if hp.cmp >= 0 && hp.cmp < len(call.Args) {
+							a := call.Args[hp.cmp]
+							if tv, ok := info.Types[a]; ok && tv.Value != nil {
+								compared[exprStr(a)] = true
+							} else if cc := enclosingCase(c.P, call); cc != nil {
+								for _, e := range cc.List {
+									compared[exprStr(e)] = true
+								}
+								if sw, ok := c.P.Parent(c.P.Parent(cc)).(*ast.SwitchStmt); ok {
+									for i, cl := range sw.Body.List {
+										if cl == ast.Stmt(cc) && i > 0 {
+											prev := sw.Body.List[i-1].(*ast.CaseClause)
+											if len(prev.Body) > 0 {
+												if br, ok := prev.Body[len(prev.Body)-1].(*ast.BranchStmt); ok && br.Tok == token.FALLTHROUGH {
+													for _, e := range prev.List {
+														compared[exprStr(e)] = true
+													}
+												}
+											}
+										}
+									}
+								}
+							}
+						}
+						return true
+					})
+				}
 			}
 			// a closer also counts as matched when the function the lexer dispatches
 			// to for that token rewrites or reads the stack top (lexThen, lexDo, …):
@@ -1432,4 +1549,112 @@ func boundToCallOf(c *Ctx, f *core.Func, obj types.Object, g *core.Func) bool {
 		return true
 	})
 	return found
+}
+
+// lastEmits computes, for the node at, the set of tokens that can have been the
+// last one emitted on a path from the function's entry (forward may-analysis
+// over go/cfg).  The set contains "?" when some path reaches the node without
+// an emit of a constant token, or after a call that scans or emits something
+// else (any other call of a lexer method that reaches emit or read).
+func (c *Ctx) lastEmits(g *core.Func, at ast.Node, emit *core.Func) map[string]bool {
+	info := g.Info()
+	readFn := c.fn("parser.(*lexer).read")
+	cg := c.P.CG()
+	disturbs := func(call *ast.CallExpr) bool {
+		fo := core.StaticCallee(info, call)
+		if fo == nil {
+			return false
+		}
+		h := c.P.FuncOf(fo)
+		if h == nil || h == emit || h.Pkg != g.Pkg {
+			return false
+		}
+		r := cg.Reachable(h)
+		return r[emit] || (readFn != nil && r[readFn]) || h == readFn
+	}
+	type set map[string]bool
+	fl := core.NewFlow(g)
+	in := map[int32]set{}
+	blocks := fl.CFG.Blocks
+	if len(blocks) == 0 {
+		return nil
+	}
+	in[blocks[0].Index] = set{"?": true}
+	var result set
+	transfer := func(b int32, nodes []ast.Node, st set, record bool) set {
+		cur := set{}
+		for k := range st {
+			cur[k] = true
+		}
+		for _, n := range nodes {
+			var calls []*ast.CallExpr
+			ast.Inspect(n, func(x ast.Node) bool {
+				if _, isLit := x.(*ast.FuncLit); isLit {
+					return false
+				}
+				if cl, ok := x.(*ast.CallExpr); ok {
+					calls = append(calls, cl)
+				}
+				return true
+			})
+			// inner calls are evaluated first
+			for i := len(calls) - 1; i >= 0; i-- {
+				cl := calls[i]
+				if record && ast.Node(cl) == at {
+					result = set{}
+					for k := range cur {
+						result[k] = true
+					}
+				}
+				fo := core.StaticCallee(info, cl)
+				switch {
+				case fo != nil && c.P.FuncOf(fo) == emit && len(cl.Args) == 1:
+					if _, isConst := info.Types[cl.Args[0]]; isConst && info.Types[cl.Args[0]].Value != nil {
+						cur = set{exprStr(cl.Args[0]): true}
+					} else {
+						cur = set{"?": true}
+					}
+				case disturbs(cl):
+					cur = set{"?": true}
+				}
+			}
+		}
+		return cur
+	}
+	work := []int32{blocks[0].Index}
+	byIdx := map[int32]int{}
+	for i, b := range blocks {
+		byIdx[b.Index] = i
+	}
+	for len(work) > 0 {
+		bi := work[0]
+		work = work[1:]
+		b := blocks[byIdx[bi]]
+		out := transfer(bi, b.Nodes, in[bi], false)
+		for _, sc := range b.Succs {
+			changed := false
+			if in[sc.Index] == nil {
+				in[sc.Index] = set{}
+				changed = true
+			}
+			for k := range out {
+				if !in[sc.Index][k] {
+					in[sc.Index][k] = true
+					changed = true
+				}
+			}
+			if changed {
+				work = append(work, sc.Index)
+			}
+		}
+	}
+	for _, b := range blocks {
+		if in[b.Index] != nil {
+			transfer(b.Index, b.Nodes, in[b.Index], true)
+		}
+	}
+	if result["?"] {
+		return nil
+	}
+	return result
 }
